@@ -2,8 +2,39 @@
 for the property's theorem file, then the correspondence of Model/Enforcement.v with the real
 channel (debug and release builds) and the implementation-side monitor for that property."""
 import lib
+import gen_rustfn
 
 IMPORTS = ["Model.EnforcementCheck"]
+
+TIE = ("  The model's decisions ARE the source's: SimpleValidator::validate_holder_commitment_tx, "
+       "::validate_counterparty_commitment_tx, ::validate_counterparty_revocation (whole bodies; the verdict of "
+       "validate_commitment_tx is a parameter, tied to the policy model under C05), Validator::get_current_holder_commitment_info "
+       "and ::set_next_holder_commit_num are translated statement by statement on every run by tools/gen_rustfn.py "
+       "(Gen/EnforcementRulesGen.v, over the EnforcementState record and methods of Gen/EnforcementGen.v) and proved to decide "
+       "what Model/Enforcement.v decides, for every state, request, policy filter and both build profiles: ")
+TRUST = "Additionally trusted: tools/gen_rustfn.py and the meaning Base/Rust.v gives to the Rust constructs it reads.  "
+
+
+def run_tied(res, props_file, pinned, monitor_tag, theorem):
+    """run(), with the translator in front of the proof stage: Gen/EnforcementGen.v (the state updates and look-ups of
+    EnforcementState) and Gen/EnforcementRulesGen.v (the commitment-number rules of the validator) are regenerated from
+    /repo under the build lock, right before the theorems that relate them to Model/Enforcement.v are re-checked.
+    `theorem`: the first of the property's theorems that rests on the translation (named in the violation)."""
+    report = {}
+
+    def regen():
+        report.update(gen_rustfn.generate_enforcement(lib.REPO))
+        report["rules"] = gen_rustfn.generate_enforcement_rules(lib.REPO)
+    try:
+        run(res, props_file, pinned, monitor_tag, pre=regen)
+    except gen_rustfn.GenError as e:
+        res.violation("the translator cannot read the commitment-number rules of the validator or the EnforcementState "
+                      "methods they use (a construct outside its fragment): %s" % e,
+                      {"translator": "tools/gen_rustfn.py",
+                       "source": "vls-core/src/policy/validator.rs, vls-core/src/policy/simple_validator.rs (+ policy/error.rs, "
+                                 "policy/onchain_validator.rs, tx/tx.rs)",
+                       "error": str(e), "theorem": theorem}, has_input=False)
+    res.coverage["translated_from_source"] = report
 
 
 def run(res, props_file, pinned, monitor_tag, extra_assumptions=(), pre=None):
